@@ -26,6 +26,8 @@ type World struct {
 	Funcs    map[string]*ssa.Function // by full name (fn.String())
 	FuncList []*ssa.Function          // deterministic order
 
+	typeKeys map[string]string // short type name -> full type string (heap array naming)
+
 	// used struct fields (struct type key -> field index set)
 	UsedFields map[string]map[int]bool
 
